@@ -77,4 +77,572 @@ Section Facts.
     - destruct ok; [|discriminate].
       destruct (String.eqb cr (admin_str s d)) eqn:E; [|discriminate]. eapply admin_match; eauto.
   Qed.
+
+  Lemma valid_amount_pos d x : valid_amount d x = true -> 0 < x /\ x <= max_int /\ validate_denom d = true.
+  Proof.
+    unfold valid_amount. intros H. apply andb_true_iff in H as [H H3]. apply andb_true_iff in H as [H1 H2].
+    apply Z.ltb_lt in H2. apply Z.leb_le in H3. auto.
+  Qed.
+
+  (** ---- complete effect of each delivered message ---- *)
+
+  Lemma mint_spec s cr d x s' r :
+    deliver c s (MMint cr d x) = (s', Ok r) ->
+    exists a, addr_of c cr = Some a /\ admin_rec s d = Some cr /\ meta_of s d <> None /\
+      deconstruct (addr_of c) d <> None /\ 0 < x /\ blocked c a = false /\
+      (forall a' d', bal (led s') a' d' = bal (led s) a' d' + bdelta a d a' d' x) /\
+      (forall d', supply (led s') d' = supply (led s) d' + sdelta d d' x) /\
+      metas s' = metas s /\ admins s' = admins s.
+  Proof.
+    intros D. destruct (only_admin_step _ _ _ _ d D eq_refl) as [Hadm [a Ha]]. simpl in Hadm, Ha.
+    apply deliver_ok in D as [VB H]. exists a.
+    assert (Hx : 0 < x).
+    { unfold validate_basic in VB. apply andb_true_iff in VB as [_ VB]. now apply valid_amount_pos in VB. }
+    simpl in H. destruct (meta_of s d) eqn:Hm; [|discriminate].
+    destruct (String.eqb cr (admin_str s d)); [|discriminate].
+    unfold bind in H. destruct (mint_to c s d x cr) as [s1|] eqn:M; [|discriminate].
+    inversion H; subst s1 r; clear H.
+    unfold mint_to in M. destruct (deconstruct (addr_of c) d) eqn:Hd; [|discriminate].
+    unfold bind in M. destruct (mint_coins (led s) (mod_tf c) d x) as [l1|] eqn:M1; [|discriminate].
+    rewrite Ha in M. apply lift_ok in M as [l2 [S2 ->]].
+    unfold send_to_acct in S2. destruct (blocked c a) eqn:Hb; [discriminate|].
+    apply mint_coins_spec in M1 as [B1 S1]. apply send_spec in S2 as (B2 & SS2 & _).
+    repeat split; try assumption; try discriminate; try reflexivity.
+    - intros a' d'. simpl. rewrite B2, B1. lia.
+    - intros d'. simpl. rewrite SS2, S1. reflexivity.
+  Qed.
+
+  Lemma burn_spec s cr d x s' r :
+    deliver c s (MBurn cr d x) = (s', Ok r) ->
+    exists a, addr_of c cr = Some a /\ admin_rec s d = Some cr /\
+      deconstruct (addr_of c) d <> None /\ 0 < x /\ x <= bal (led s) a d /\
+      (forall a' d', bal (led s') a' d' = bal (led s) a' d' - bdelta a d a' d' x) /\
+      (forall d', supply (led s') d' = supply (led s) d' - sdelta d d' x) /\
+      metas s' = metas s /\ admins s' = admins s.
+  Proof.
+    intros D. destruct (only_admin_step _ _ _ _ d D eq_refl) as [Hadm [a Ha]]. simpl in Hadm, Ha.
+    apply deliver_ok in D as [VB H]. exists a.
+    assert (Hx : 0 < x).
+    { unfold validate_basic in VB. apply andb_true_iff in VB as [_ VB]. now apply valid_amount_pos in VB. }
+    simpl in H. destruct (String.eqb cr (admin_str s d)); [|discriminate].
+    unfold bind in H. destruct (burn_from c s d x cr) as [s1|] eqn:M; [|discriminate].
+    inversion H; subst s1 r; clear H.
+    unfold burn_from in M. destruct (deconstruct (addr_of c) d) eqn:Hd; [|discriminate].
+    rewrite Ha in M. apply lift_ok in M as [l2 [S2 ->]].
+    unfold bind in S2. destruct (send (led s) a (mod_tf c) d x) as [l1|] eqn:S1; [|discriminate].
+    apply send_spec in S1 as (B1 & SS1 & Hle). apply burn_coins_spec in S2 as [B2 SS2].
+    repeat split; try assumption; try discriminate; try reflexivity.
+    - intros a' d'. simpl. rewrite B2, B1. lia.
+    - intros d'. simpl. rewrite SS2, SS1. reflexivity.
+  Qed.
+
+  Lemma change_admin_spec s cr d na s' r :
+    deliver c s (MChangeAdmin cr d na) = (s', Ok r) ->
+    admin_rec s d = Some cr /\ (na = EmptyString \/ exists a, addr_of c na = Some a) /\
+    s' = set_admin s d na.
+  Proof.
+    intros D. destruct (only_admin_step _ _ _ _ d D eq_refl) as [Hadm _]. simpl in Hadm.
+    apply deliver_ok in D as [_ H]. simpl in H.
+    destruct (String.eqb cr (admin_str s d)); [|discriminate].
+    destruct (String.eqb na EmptyString || valid_addr c na) eqn:E; [|discriminate].
+    inversion H; subst. split; [assumption|]. split; [|reflexivity].
+    apply orb_true_iff in E as [E|E].
+    - left. now apply String.eqb_eq.
+    - right. unfold valid_addr in E. destruct (addr_of c na); [eauto|discriminate].
+  Qed.
+
+  Lemma set_meta_spec s cr d ok tag s' r :
+    deliver c s (MSetMeta cr d ok tag) = (s', Ok r) ->
+    admin_rec s d = Some cr /\ s' = set_meta s d tag.
+  Proof.
+    intros D. destruct (only_admin_step _ _ _ _ d D eq_refl) as [Hadm _]. simpl in Hadm.
+    apply deliver_ok in D as [_ H]. simpl in H. destruct ok; [|discriminate].
+    destruct (String.eqb cr (admin_str s d)); [|discriminate].
+    inversion H; subst. auto.
+  Qed.
+
+  Lemma create_spec s cr sub s' r :
+    deliver c s (MCreate cr sub) = (s', Ok r) ->
+    exists a, addr_of c cr = Some a /\ r = construct cr sub /\ contains_slash cr = false /\
+      validate_denom r = true /\ meta_of s r = None /\ has_supply (led s) sub = false /\
+      (forall d', supply (led s') d' = supply (led s) d') /\
+      (forall a' d', ~ In d' (map fst (fee c)) -> bal (led s') a' d' = bal (led s) a' d') /\
+      (forall d', meta_of s' d' = if String.eqb d' r then Some 0 else meta_of s d') /\
+      (forall d', admin_rec s' d' = if String.eqb d' r then Some cr else admin_rec s d').
+  Proof.
+    intros D. apply deliver_ok in D as [_ H]. simpl in H. unfold create_denom in H.
+    destruct (has_supply (led s) sub) eqn:Hs; [discriminate|].
+    unfold bind in H. destruct (get_token_denom cr sub) as [d|] eqn:G; [|discriminate].
+    destruct (meta_of s d) eqn:Hm; [discriminate|].
+    destruct (addr_of c cr) as [a|] eqn:Ha; [|discriminate]. exists a.
+    apply get_token_denom_ok in G as (Hd & Hsl & Hv & _).
+    match type of H with match lift s ?F with _ => _ end = _ => destruct (lift s F) as [s1|] eqn:L; [|discriminate] end.
+    inversion H; subst s' r; clear H.
+    apply lift_ok in L as [l1 [L ->]].
+    assert (Sup : forall d', supply l1 d' = supply (led s) d').
+    { destruct (fee c) as [|f0 fr]; [inversion L; reflexivity|]. intros d'. eapply send_coins_supply; eauto. }
+    assert (Bal : forall a' d', ~ In d' (map fst (fee c)) -> bal l1 a' d' = bal (led s) a' d').
+    { destruct (fee c) as [|f0 fr] eqn:Ef; [inversion L; reflexivity|]. intros a' d' N.
+      eapply send_coins_bal_other; eauto. }
+    split; [reflexivity|]. split; [exact Hd|]. split; [exact Hsl|]. split; [exact Hv|].
+    split; [exact Hm|]. split; [reflexivity|]. split; [exact Sup|]. split; [exact Bal|]. split.
+    - intros d'. rewrite meta_of_set_admin, meta_of_set_meta. reflexivity.
+    - intros d'. rewrite admin_rec_set_admin. reflexivity.
+  Qed.
 End Facts.
+
+(** ---- the property's theorems ---- *)
+
+Section Theorems.
+  Variable c : cfg.
+  Hypothesis addr_of_empty : addr_of c EmptyString = None.
+
+  Lemma run_cons o ops s : run c (o :: ops) s = run c ops (step c s o).
+  Proof. reflexivity. Qed.
+  Lemma run_app ops1 ops2 s : run c (ops1 ++ ops2) s = run c ops2 (run c ops1 s).
+  Proof. unfold run. apply fold_left_app. Qed.
+
+  (** only_admin_acts along a history *)
+  Theorem only_admin_hist s0 pre post m d :
+    privileged m = Some d -> succeeded c (run c pre s0) (OMsg m) = true ->
+    run c (pre ++ OMsg m :: post) s0 = run c post (step c (run c pre s0) (OMsg m)) /\
+    admin_rec (run c pre s0) d = Some (sender m) /\ exists a, addr_of c (sender m) = Some a.
+  Proof.
+    intros P S. split; [rewrite run_app; reflexivity|].
+    unfold succeeded in S. cbn [step_out] in S.
+    destruct (deliver c (run c pre s0) m) as [s' [r|e]] eqn:D; [|discriminate].
+    exact (only_admin_step c addr_of_empty _ _ _ _ d D P).
+  Qed.
+
+  (** mint_burn_touch_admin_only *)
+  Theorem mint_touches_admin_only s cr d x s' r :
+    deliver c s (MMint cr d x) = (s', Ok r) ->
+    exists a, addr_of c cr = Some a /\ admin_rec s d = Some cr /\ 0 < x /\
+      bal (led s') a d = bal (led s) a d + x /\
+      supply (led s') d = supply (led s) d + x /\
+      (forall a' d', (a', d') <> (a, d) -> bal (led s') a' d' = bal (led s) a' d') /\
+      (forall d', d' <> d -> supply (led s') d' = supply (led s) d') /\
+      metas s' = metas s /\ admins s' = admins s.
+  Proof.
+    intros D. destruct (mint_spec c addr_of_empty _ _ _ _ _ _ D) as (a & Ha & Hadm & _ & _ & Hx & _ & B & S & M & A).
+    exists a. repeat split; try assumption.
+    - rewrite B, bdelta_same. reflexivity.
+    - rewrite S, sdelta_same. reflexivity.
+    - intros a' d' N. rewrite B, (bdelta_other _ _ _ _ _ N). lia.
+    - intros d' N. rewrite S, (sdelta_other _ _ _ N). lia.
+  Qed.
+
+  Theorem burn_touches_admin_only s cr d x s' r :
+    deliver c s (MBurn cr d x) = (s', Ok r) ->
+    exists a, addr_of c cr = Some a /\ admin_rec s d = Some cr /\ 0 < x <= bal (led s) a d /\
+      bal (led s') a d = bal (led s) a d - x /\
+      supply (led s') d = supply (led s) d - x /\
+      (forall a' d', (a', d') <> (a, d) -> bal (led s') a' d' = bal (led s) a' d') /\
+      (forall d', d' <> d -> supply (led s') d' = supply (led s) d') /\
+      metas s' = metas s /\ admins s' = admins s.
+  Proof.
+    intros D. destruct (burn_spec c addr_of_empty _ _ _ _ _ _ D) as (a & Ha & Hadm & _ & Hx & Hle & B & S & M & A).
+    exists a. repeat split; try assumption.
+    - rewrite B, bdelta_same. reflexivity.
+    - rewrite S, sdelta_same. reflexivity.
+    - intros a' d' N. rewrite B, (bdelta_other _ _ _ _ _ N). lia.
+    - intros d' N. rewrite S, (sdelta_other _ _ _ N). lia.
+  Qed.
+
+  (** ---- supply accounting ---- *)
+
+  Lemma xmint_spec l t d x l' :
+    xmint l t d x = Ok l' -> forall d', supply l' d' = supply l d' + sdelta d d' x.
+  Proof.
+    unfold xmint, bind. destruct (0 <=? x); [|discriminate].
+    destruct (add_bal l t d x) as [l1|] eqn:E1; [|discriminate].
+    destruct (supply l1 d + x <=? max_int); [|discriminate].
+    intros H; inversion H; subst l'. apply add_bal_spec in E1 as (_ & S1).
+    intros d'. rewrite supply_set_sup. unfold sdelta. destruct (String.eqb d' d) eqn:E.
+    - apply String.eqb_eq in E; subst d'. rewrite S1. reflexivity.
+    - rewrite S1. lia.
+  Qed.
+
+  Lemma xburn_spec l f d x l' :
+    xburn l f d x = Ok l' -> forall d', supply l' d' = supply l d' - sdelta d d' x.
+  Proof.
+    unfold xburn, bind. destruct (0 <=? x); [|discriminate].
+    destruct (sub_bal l f d x) as [l1|] eqn:E1; [|discriminate].
+    destruct (0 <=? supply l1 d - x); [|discriminate].
+    intros H; inversion H; subst l'. apply sub_bal_spec in E1 as (_ & S1 & _).
+    intros d'. rewrite supply_set_sup. unfold sdelta. destruct (String.eqb d' d) eqn:E.
+    - apply String.eqb_eq in E; subst d'. rewrite S1. reflexivity.
+    - rewrite S1. lia.
+  Qed.
+
+  Lemma sdelta_sym_if d d0 x : sdelta d0 d x = if String.eqb d d0 then x else 0.
+  Proof. reflexivity. Qed.
+
+  Lemma supply_step s o d :
+    supply (led (step c s o)) d =
+    supply (led s) d + minted_by c d s o - burned_by c d s o + ext_delta c d s o.
+  Proof.
+    destruct o as [m|f t d0 x|t d0 x|f d0 x]; unfold step, minted_by, burned_by, ext_delta, succeeded.
+    - cbn [step_out]. destruct (deliver c s m) as [s' [r|e]] eqn:D; cbn [fst snd is_ok].
+      + destruct m as [cr sub|cr d0 x|cr d0 x|cr d0 na|cr d0 ok tag].
+        * destruct (create_spec c _ _ _ _ _ D) as (a & _ & _ & _ & _ & _ & _ & S & _). rewrite S. lia.
+        * destruct (mint_spec c addr_of_empty _ _ _ _ _ _ D) as (a & _ & _ & _ & _ & _ & _ & _ & S & _).
+          rewrite S, sdelta_sym_if, andb_true_r. lia.
+        * destruct (burn_spec c addr_of_empty _ _ _ _ _ _ D) as (a & _ & _ & _ & _ & _ & _ & S & _).
+          rewrite S, sdelta_sym_if, andb_true_r. lia.
+        * destruct (change_admin_spec c addr_of_empty _ _ _ _ _ _ D) as (_ & _ & ->). simpl. lia.
+        * destruct (set_meta_spec c addr_of_empty _ _ _ _ _ _ _ D) as (_ & ->). simpl. lia.
+      + apply deliver_err in D; subst s'.
+        destruct m; rewrite ?andb_false_r; lia.
+    - cbn [step_out]. destruct (if 0 <=? x then send (led s) f t d0 x else Err EValidate) as [l|e] eqn:E; cbn [fst].
+      + destruct (0 <=? x); [|discriminate]. apply send_spec in E as (_ & S & _). simpl. rewrite S. lia.
+      + lia.
+    - cbn [step_out]. destruct (xmint (led s) t d0 x) as [l|e] eqn:E; cbn [fst snd is_ok].
+      + simpl. rewrite (xmint_spec _ _ _ _ _ E), sdelta_sym_if, andb_true_r. lia.
+      + rewrite andb_false_r. lia.
+    - cbn [step_out]. destruct (xburn (led s) f d0 x) as [l|e] eqn:E; cbn [fst snd is_ok].
+      + simpl. rewrite (xburn_spec _ _ _ _ _ E), sdelta_sym_if, andb_true_r.
+        destruct (String.eqb d d0); lia.
+      + rewrite andb_false_r. lia.
+  Qed.
+
+  (** supply_eq_mints_minus_burns: over every history from every state. *)
+  Theorem supply_accounting ops : forall s d,
+    supply (led (run c ops s)) d =
+    supply (led s) d + total c (minted_by c d) ops s - total c (burned_by c d) ops s
+                     + total c (ext_delta c d) ops s.
+  Proof.
+    induction ops as [|o r IH]; intros s d; [simpl; lia|].
+    rewrite run_cons, IH, supply_step. simpl. lia.
+  Qed.
+
+  (** No other module minted or burned [d] in the history. *)
+  Definition no_external (d : denom) (o : op) : Prop :=
+    match o with
+    | OXMint _ d' _ | OXBurn _ d' _ => d' <> d
+    | _ => True
+    end.
+
+  Lemma total_ext_zero d ops : forall s, Forall (no_external d) ops -> total c (ext_delta c d) ops s = 0.
+  Proof.
+    induction ops as [|o r IH]; intros s F; [reflexivity|]. inversion F as [|? ? Ho Fr]; subst.
+    simpl. rewrite (IH _ Fr).
+    destruct o as [m|f t d0 x|t d0 x|f d0 x]; simpl in Ho |- *; try lia;
+      (destruct (String.eqb d d0) eqn:E; [apply String.eqb_eq in E; subst; contradiction|simpl; lia]).
+  Qed.
+
+  Theorem supply_eq_mints_minus_burns_closed ops s d :
+    Forall (no_external d) ops ->
+    supply (led (run c ops s)) d =
+    supply (led s) d + total c (minted_by c d) ops s - total c (burned_by c d) ops s.
+  Proof. intros F. rewrite supply_accounting, (total_ext_zero _ _ _ F). lia. Qed.
+
+  (** ---- which steps can change what ---- *)
+
+  Definition wf (s : state) : Prop := forall d, admin_rec s d <> None -> meta_of s d <> None.
+
+  Lemma wf_empty : wf empty_state.
+  Proof. intros d H. exfalso. apply H. reflexivity. Qed.
+
+  (** Everything a step can do to the admin record and the metadata of a denom. *)
+  Lemma control_step s o d :
+    (admin_rec (step c s o) d = admin_rec s d /\ meta_of (step c s o) d = meta_of s d) \/
+    exists m r, o = OMsg m /\ deliver c s m = (step c s o, Ok r) /\
+      ((exists cr sub, m = MCreate cr sub /\ r = d /\ meta_of s d = None /\
+                       admin_rec (step c s o) d = Some cr /\ meta_of (step c s o) d = Some 0) \/
+       (privileged m = Some d /\ admin_rec s d = Some (sender m) /\
+        exists a, addr_of c (sender m) = Some a)).
+  Proof.
+    destruct o as [m|f t d0 x|t d0 x|f d0 x]; unfold step; cbn [step_out].
+    - destruct (deliver c s m) as [s' [r|e]] eqn:D; cbn [fst].
+      + destruct m as [cr sub|cr d0 x|cr d0 x|cr d0 na|cr d0 ok tag].
+        * destruct (create_spec c _ _ _ _ _ D) as (a & Ha & Hr & _ & _ & Hm & _ & _ & _ & M & A).
+          destruct (String.eqb d r) eqn:E.
+          -- apply String.eqb_eq in E; subst d. right. exists (MCreate cr sub), r. split; [reflexivity|].
+             split; [exact D|]. left. exists cr, sub. rewrite M, A, String.eqb_refl. auto.
+          -- left. rewrite M, A, E. auto.
+        * destruct (mint_spec c addr_of_empty _ _ _ _ _ _ D) as (a & _ & _ & _ & _ & _ & _ & _ & _ & M & A).
+          left. unfold admin_rec, meta_of. rewrite M, A. auto.
+        * destruct (burn_spec c addr_of_empty _ _ _ _ _ _ D) as (a & _ & _ & _ & _ & _ & _ & _ & M & A).
+          left. unfold admin_rec, meta_of. rewrite M, A. auto.
+        * destruct (String.eqb d d0) eqn:E.
+          -- apply String.eqb_eq in E; subst d0. right. exists (MChangeAdmin cr d na), r.
+             split; [reflexivity|]. split; [exact D|]. right.
+             destruct (only_admin_step c addr_of_empty _ _ _ _ d D eq_refl) as [H1 H2]. auto.
+          -- destruct (change_admin_spec c addr_of_empty _ _ _ _ _ _ D) as (_ & _ & ->). left.
+             rewrite admin_rec_set_admin, E. auto.
+        * destruct (String.eqb d d0) eqn:E.
+          -- apply String.eqb_eq in E; subst d0. right. exists (MSetMeta cr d ok tag), r.
+             split; [reflexivity|]. split; [exact D|]. right.
+             destruct (only_admin_step c addr_of_empty _ _ _ _ d D eq_refl) as [H1 H2]. auto.
+          -- destruct (set_meta_spec c addr_of_empty _ _ _ _ _ _ _ D) as (_ & ->). left.
+             rewrite meta_of_set_meta, E. auto.
+      + apply deliver_err in D; subst s'. auto.
+    - left. destruct (if 0 <=? x then send (led s) f t d0 x else Err EValidate); cbn [fst]; auto.
+    - left. destruct (xmint (led s) t d0 x); cbn [fst]; auto.
+    - left. destruct (xburn (led s) f d0 x); cbn [fst]; auto.
+  Qed.
+
+  Lemma meta_monotone_step s o d : meta_of s d <> None -> meta_of (step c s o) d <> None.
+  Proof.
+    intros H. destruct (control_step s o d) as [[_ M]|(m & r & -> & D & [(cr & sub & _ & _ & Hn & _ & _)|(P & _ & _)])].
+    - rewrite M. exact H.
+    - contradiction.
+    - destruct m as [cr sub|cr d0 x|cr d0 x|cr d0 na|cr d0 ok tag]; simpl in P; try discriminate;
+        injection P as ->.
+      + destruct (mint_spec c addr_of_empty _ _ _ _ _ _ D) as (a & _ & _ & _ & _ & _ & _ & _ & _ & M & _).
+        unfold meta_of. rewrite M. exact H.
+      + destruct (burn_spec c addr_of_empty _ _ _ _ _ _ D) as (a & _ & _ & _ & _ & _ & _ & _ & M & _).
+        unfold meta_of. rewrite M. exact H.
+      + destruct (change_admin_spec c addr_of_empty _ _ _ _ _ _ D) as (_ & _ & E). rewrite E. exact H.
+      + destruct (set_meta_spec c addr_of_empty _ _ _ _ _ _ _ D) as (_ & E). rewrite E, meta_of_set_meta.
+        rewrite String.eqb_refl. discriminate.
+  Qed.
+
+  Lemma wf_step s o : wf s -> wf (step c s o).
+  Proof.
+    intros W d H.
+    destruct (control_step s o d) as [[A M]|(m & r & -> & D & [(cr & sub & _ & _ & _ & _ & M)|(P & Hadm & _)])].
+    - rewrite M. apply W. rewrite <- A. exact H.
+    - rewrite M. discriminate.
+    - apply meta_monotone_step. apply W. rewrite Hadm. discriminate.
+  Qed.
+
+  Lemma wf_run ops : forall s, wf s -> wf (run c ops s).
+  Proof. induction ops as [|o r IH]; intros s W; [exact W|]. rewrite run_cons. apply IH, wf_step, W. Qed.
+
+  (** only_admin_acts, as a statement about effects: in a state reached by the factory, whenever a
+      step changes the admin record or the metadata of an existing factory denom, that step is a
+      delivered privileged message sent by the denom's admin. *)
+  Theorem control_only_by_admin s o d a :
+    wf s -> admin_rec s d = Some a ->
+    admin_rec (step c s o) d <> Some a \/ meta_of (step c s o) d <> meta_of s d ->
+    exists m, o = OMsg m /\ sender m = a /\ privileged m = Some d /\ succeeded c s o = true /\
+              exists acc, addr_of c a = Some acc.
+  Proof.
+    intros W Hadm Ch.
+    destruct (control_step s o d) as [[A M]|(m & r & -> & D & [(cr & sub & _ & _ & Hn & _ & _)|(P & Hs & Ha)])].
+    - exfalso. rewrite A, M in Ch. destruct Ch as [Ch|Ch]; apply Ch; auto.
+    - exfalso. apply (W d); [rewrite Hadm; discriminate|exact Hn].
+    - exists m. rewrite Hadm in Hs. injection Hs as Hs.
+      split; [reflexivity|]. split; [symmetry; exact Hs|]. split; [exact P|]. split.
+      + unfold succeeded. cbn [step_out]. unfold step in D. cbn [step_out] in D.
+        destruct (deliver c s m) as [s1 r1]. cbn [fst] in D. inversion D. reflexivity.
+      + rewrite Hs. exact Ha.
+  Qed.
+
+  (** ---- namespace and uniqueness ---- *)
+
+  Theorem create_in_own_namespace s cr sub s' d :
+    deliver c s (MCreate cr sub) = (s', Ok d) ->
+    d = construct cr sub /\ contains_slash cr = false /\
+    (exists a, addr_of c cr = Some a /\ deconstruct (addr_of c) d = Some (a, sub)) /\
+    meta_of s d = None /\ meta_of s' d = Some 0 /\ admin_rec s' d = Some cr.
+  Proof.
+    intros D. destruct (create_spec c _ _ _ _ _ D) as (a & Ha & Hr & Hs & Hv & Hm & _ & _ & _ & M & A).
+    split; [exact Hr|]. split; [exact Hs|]. split.
+    - exists a. split; [exact Ha|]. subst d. now apply deconstruct_of_construct.
+    - rewrite M, A, String.eqb_refl. auto.
+  Qed.
+
+  (** Nobody but [cr] can obtain a denom of the form factory/cr/...  *)
+  Theorem namespace_exclusive s cr' sub' s' d cr sub :
+    deliver c s (MCreate cr' sub') = (s', Ok d) ->
+    d = construct cr sub -> contains_slash cr = false -> cr' = cr /\ sub' = sub.
+  Proof.
+    intros D E Hs. destruct (create_in_own_namespace _ _ _ _ _ D) as (E' & Hs' & _).
+    rewrite E in E'. symmetry in E'. now apply construct_injective in E'.
+  Qed.
+
+  Lemma created_cons o ops s :
+    created c (o :: ops) s =
+    match o, snd (step_out c s o) with
+    | OMsg (MCreate _ _), Ok d => d :: created c ops (step c s o)
+    | _, _ => created c ops (step c s o)
+    end.
+  Proof. reflexivity. Qed.
+
+  Lemma created_head s o ops d :
+    In d (created c (o :: ops) s) ->
+    (exists cr sub, o = OMsg (MCreate cr sub) /\ deliver c s (MCreate cr sub) = (step c s o, Ok d)) \/
+    In d (created c ops (step c s o)).
+  Proof.
+    rewrite created_cons. destruct o as [m|f t d0 x|t d0 x|f d0 x]; auto.
+    destruct m as [cr sub|cr d0 x|cr d0 x|cr d0 na|cr d0 ok tag]; auto.
+    unfold step. cbn [step_out]. destruct (deliver c s (MCreate cr sub)) as [s' [r|e]] eqn:D; cbn [snd fst]; auto.
+    intros [E|I]; [|auto]. subst r. left. exists cr, sub. auto.
+  Qed.
+
+  (** A denom that a history creates did not exist (had no bank metadata) when the history began… *)
+  Lemma created_fresh ops : forall s d, In d (created c ops s) -> meta_of s d = None.
+  Proof.
+    induction ops as [|o r IH]; intros s d I; [contradiction|].
+    apply created_head in I as [(cr & sub & -> & D)|I].
+    - now destruct (create_in_own_namespace _ _ _ _ _ D) as (_ & _ & _ & Hm & _).
+    - apply IH in I. destruct (meta_of s d) eqn:E; [|reflexivity].
+      exfalso. apply (meta_monotone_step s o d); [rewrite E; discriminate|exact I].
+  Qed.
+
+  (** …and is never created a second time. *)
+  Theorem created_once ops : forall s, NoDup (created c ops s).
+  Proof.
+    induction ops as [|o r IH]; intros s; [constructor|].
+    rewrite created_cons. destruct o as [m|f t d0 x|t d0 x|f d0 x]; try apply IH.
+    destruct m as [cr sub|cr d0 x|cr d0 x|cr d0 na|cr d0 ok tag]; try apply IH.
+    unfold step. cbn [step_out]. destruct (deliver c s (MCreate cr sub)) as [s' [d|e]] eqn:D; cbn [snd fst]; [|apply IH].
+    constructor; [|apply IH]. intros I. apply created_fresh in I.
+    destruct (create_in_own_namespace _ _ _ _ _ D) as (_ & _ & _ & _ & Hm & _). rewrite Hm in I. discriminate.
+  Qed.
+
+  Theorem existing_denom_never_created ops s d :
+    meta_of s d <> None -> ~ In d (created c ops s).
+  Proof. intros H I. apply created_fresh in I. contradiction. Qed.
+
+  (** ---- foreign denoms ---- *)
+
+  Theorem foreign_step s m d :
+    deconstruct (addr_of c) d = None ->
+    let s' := fst (deliver c s m) in
+    supply (led s') d = supply (led s) d /\ admin_rec s' d = admin_rec s d /\ meta_of s' d = meta_of s d /\
+    ((forall a, bal (led s') a d = bal (led s) a d) \/
+     (exists cr sub, m = MCreate cr sub /\ In d (map fst (fee c)))).
+  Proof.
+    intros F. cbn zeta. destruct (deliver c s m) as [s' [r|e]] eqn:D; cbn [fst].
+    2:{ apply deliver_err in D; subst s'. auto. }
+    destruct m as [cr sub|cr d0 x|cr d0 x|cr d0 na|cr d0 ok tag].
+    - destruct (create_in_own_namespace _ _ _ _ _ D) as (_ & _ & (a & _ & Hd) & _).
+      destruct (create_spec c _ _ _ _ _ D) as (a0 & _ & _ & _ & _ & _ & _ & S & B & M & A).
+      assert (N : String.eqb d r = false).
+      { destruct (String.eqb d r) eqn:E; [|reflexivity]. apply String.eqb_eq in E; subst r.
+        rewrite F in Hd. discriminate. }
+      rewrite S, M, A, N. repeat split.
+      destruct (in_dec string_dec d (map fst (fee c))) as [I|I]; [right; eauto|left].
+      intros a'. apply B, I.
+    - destruct (mint_spec c addr_of_empty _ _ _ _ _ _ D) as (a & _ & _ & _ & Hd & _ & _ & B & S & M & A).
+      assert (N : d <> d0) by (intros ->; contradiction).
+      unfold admin_rec, meta_of. rewrite M, A, S, (sdelta_other _ _ _ N). repeat split; [lia|].
+      left. intros a'. rewrite B, (bdelta_denom _ _ _ _ _ N). lia.
+    - destruct (burn_spec c addr_of_empty _ _ _ _ _ _ D) as (a & _ & _ & Hd & _ & _ & B & S & M & A).
+      assert (N : d <> d0) by (intros ->; contradiction).
+      unfold admin_rec, meta_of. rewrite M, A, S, (sdelta_other _ _ _ N). repeat split; [lia|].
+      left. intros a'. rewrite B, (bdelta_denom _ _ _ _ _ N). lia.
+    - destruct (change_admin_spec c addr_of_empty _ _ _ _ _ _ D) as (_ & _ & ->).
+      apply deliver_ok in D as [VB _]. unfold validate_basic in VB. apply andb_true_iff in VB as [_ VB].
+      assert (N : String.eqb d d0 = false).
+      { destruct (String.eqb d d0) eqn:E; [|reflexivity]. apply String.eqb_eq in E; subst d0.
+        rewrite F in VB. discriminate. }
+      rewrite admin_rec_set_admin, N. simpl. auto.
+    - destruct (set_meta_spec c addr_of_empty _ _ _ _ _ _ _ D) as (_ & ->).
+      apply deliver_ok in D as [VB _]. unfold validate_basic in VB. apply andb_true_iff in VB as [_ VB].
+      apply andb_true_iff in VB as [_ VB].
+      assert (N : String.eqb d d0 = false).
+      { destruct (String.eqb d d0) eqn:E; [|reflexivity]. apply String.eqb_eq in E; subst d0.
+        rewrite F in VB. discriminate. }
+      rewrite meta_of_set_meta, N. simpl. auto.
+  Qed.
+
+  (** A denom without an admin record that the history does not create is never minted or burned
+      through the factory (this covers native denoms, malformed strings, and well-formed factory
+      names nobody created). *)
+  Theorem never_created_never_minted ops : forall s d,
+    admin_rec s d = None -> ~ In d (created c ops s) ->
+    total c (minted_by c d) ops s = 0 /\ total c (burned_by c d) ops s = 0 /\
+    admin_rec (run c ops s) d = None.
+  Proof.
+    induction ops as [|o r IH]; intros s d Hn Nc; [simpl; auto|].
+    assert (Hstep : admin_rec (step c s o) d = None /\ minted_by c d s o = 0 /\ burned_by c d s o = 0).
+    { destruct (control_step s o d) as [[A _]|(m & r0 & -> & D & [(cr & sub & -> & -> & _)|(P & Hs & _)])].
+      - split; [rewrite A; exact Hn|].
+        destruct o as [m|f t d0 x|t d0 x|f d0 x]; try (simpl; auto; fail).
+        destruct m as [cr sub|cr d0 x|cr d0 x|cr d0 na|cr d0 ok tag]; try (simpl; auto; fail).
+        + unfold minted_by, burned_by, succeeded. cbn [step_out]. split; [|reflexivity].
+          destruct (String.eqb d d0) eqn:E; [|reflexivity]. apply String.eqb_eq in E; subst d0.
+          destruct (deliver c s (MMint cr d x)) as [s' [r1|e]] eqn:D; cbn [snd is_ok]; [|reflexivity].
+          destruct (only_admin_step c addr_of_empty _ _ _ _ d D eq_refl) as [H1 _]. rewrite Hn in H1. discriminate.
+        + unfold minted_by, burned_by, succeeded. cbn [step_out]. split; [reflexivity|].
+          destruct (String.eqb d d0) eqn:E; [|reflexivity]. apply String.eqb_eq in E; subst d0.
+          destruct (deliver c s (MBurn cr d x)) as [s' [r1|e]] eqn:D; cbn [snd is_ok]; [|reflexivity].
+          destruct (only_admin_step c addr_of_empty _ _ _ _ d D eq_refl) as [H1 _]. rewrite Hn in H1. discriminate.
+      - exfalso. apply Nc. rewrite created_cons. cbn [step_out].
+        unfold step in D. cbn [step_out] in D. destruct (deliver c s (MCreate cr sub)) as [s1 r1].
+        cbn [fst] in D. inversion D; subst. cbn [snd]. left. reflexivity.
+      - rewrite Hn in Hs. discriminate. }
+    destruct Hstep as (Hn1 & M0 & B0).
+    assert (Nc1 : ~ In d (created c r (step c s o))).
+    { intros I. apply Nc. rewrite created_cons.
+      destruct o as [m|? ? ? ?|? ? ?|? ? ?]; auto.
+      destruct m as [cr sub|? ? ?|? ? ?|? ? ?|? ? ? ?]; auto.
+      destruct (snd (step_out c s (OMsg (MCreate cr sub)))); auto. right. exact I. }
+    destruct (IH _ _ Hn1 Nc1) as (M & B & A).
+    rewrite run_cons. simpl. rewrite M, B, M0, B0. auto.
+  Qed.
+End Theorems.
+
+(** ---- non-vacuity: a concrete configuration and history on which every hypothesis used above
+    is met and every conclusion is visibly non-trivial ---- *)
+Module Ex.
+  Open Scope string_scope.
+  Definition addr (s : string) : option acct :=
+    if String.eqb s "alice" then Some 1 else if String.eqb s "bob" then Some 2 else None.
+  Definition cf : cfg :=
+    {| addr_of := addr; mod_tf := 100; mod_distr := 101;
+       blocked := fun a => Z.eqb a 100 || Z.eqb a 101; fee := [("ugrain", 10)] |}.
+  Definition d : denom := "factory/alice/foo".
+  Definition ops : list op :=
+    [ OXMint 1 "ugrain" 50;
+      OMsg (MCreate "alice" "foo");
+      OMsg (MMint "alice" d 7);
+      OMsg (MMint "bob" d 7);               (* refused: bob is not the admin *)
+      OMsg (MBurn "alice" d 3);
+      OXSend 1 2 d 1;                       (* alice gives bob one token: bank send, not the factory *)
+      OMsg (MBurn "bob" d 1);               (* refused: holding the token does not make bob admin *)
+      OMsg (MSetMeta "alice" d true 42);
+      OMsg (MChangeAdmin "alice" d "bob");
+      OMsg (MMint "alice" d 1);             (* refused: alice handed the role over *)
+      OMsg (MMint "bob" d 5);
+      OMsg (MChangeAdmin "bob" d "");       (* renounce *)
+      OMsg (MMint "bob" d 1);               (* refused: no admin any more *)
+      OMsg (MMint "" d 1);                  (* refused: the empty creator is not an address *)
+      OMsg (MCreate "alice" "foo");         (* refused: exists *)
+      OMsg (MCreate "bob" "foo");           (* refused: bob cannot pay the fee *)
+      OMsg (MMint "alice" "ugrain" 5);      (* refused: native denom *)
+      OMsg (MCreate "alice" "ugrain")       (* refused: subdenom equals a denom with supply *)
+    ].
+  Definition final : state := run cf ops empty_state.
+
+  Example addr_empty : addr_of cf "" = None. Proof. reflexivity. Qed.
+  Example outcomes :
+    map (fun k => succeeded cf (run cf (firstn k ops) empty_state) (nth k ops (OXMint 0 "" 0)))
+        (seq 0 (List.length ops))
+    = [true; true; true; false; true; true; false; true; true; false; true; true; false; false; false; false; false; false].
+  Proof. vm_compute. reflexivity. Qed.
+  Example final_supply : supply (led final) d = 9 /\
+    total cf (minted_by cf d) ops empty_state = 12 /\ total cf (burned_by cf d) ops empty_state = 3 /\
+    total cf (ext_delta cf d) ops empty_state = 0 /\ Forall (no_external d) ops.
+  Proof. vm_compute. repeat split; repeat constructor; discriminate. Qed.
+  Example final_balances :
+    bal (led final) 1 d = 3 /\ bal (led final) 2 d = 6 /\ bal (led final) 100 d = 0 /\
+    bal (led final) 1 "ugrain" = 40 /\ bal (led final) 101 "ugrain" = 10 /\ supply (led final) "ugrain" = 50.
+  Proof. vm_compute. repeat split. Qed.
+  Example final_control : admin_rec final d = Some "" /\ meta_of final d = Some 42 /\
+    created cf ops empty_state = [d] /\ wf final /\
+    deconstruct addr d = Some (1, "foo") /\ deconstruct addr "ugrain" = None /\
+    get_token_denom "alice" "foo" = Ok d.
+  Proof.
+    repeat split; try (vm_compute; reflexivity).
+    apply wf_run; [reflexivity|apply wf_empty].
+  Qed.
+  (** a delivered privileged message exists in some state (hypotheses of the step theorems) *)
+  Example step_hyp :
+    let s := run cf (firstn 2 ops) empty_state in
+    exists s', deliver cf s (MMint "alice" d 7) = (s', Ok "") /\ admin_rec s d = Some "alice" /\
+               bal (led s') 1 d = 7 /\ supply (led s') d = 7 /\ bal (led s') 100 d = 0.
+  Proof. eexists. vm_compute. repeat split. Qed.
+  Example control_hyp :
+    let s := run cf (firstn 8 ops) empty_state in
+    wf s /\ admin_rec s d = Some "alice" /\
+    admin_rec (step cf s (OMsg (MChangeAdmin "alice" d "bob"))) d = Some "bob".
+  Proof.
+    split; [apply wf_run; [reflexivity|apply wf_empty]|]. vm_compute. split; reflexivity.
+  Qed.
+End Ex.
